@@ -1,6 +1,7 @@
 /* common part of the xcmc / common_ctl harnesses of unit utilctl: prelude, the REAL common/common_ctl.c and libxcmctl/xcmc.c,
  * environment, contracts.  Renamed by macro while the real TUs are read (models in env/utilctl_env.h, TRUSTED):
  *   strlen / strcpy / strncmp -> ghost-length string models (strings of up to PATH_MAX characters)
+ *   memcpy (xcmc.c only) -> env/base.h's model with a typed read of the tracked byte
  *   ut_malloc / ut_free (xcmc.c only) -> counting wrappers around env/base.h's (session objects, C08)
  * env/fd.h is reused for the descriptor table and connect/setsockopt/send/close; its socket() (C05 obligation SOCK_NONBLOCK: not
  * applicable to the blocking client library) and send()/recv() (symbolic-offset accesses into 38 KB stack structs; no record of
@@ -37,11 +38,14 @@ char *xvu_strcpy64(char *dst, const char *src);
 #undef strcpy
 #define strcpy(d, s) xvu_strcpy64((d), (s))
 #endif
+void *xvu_memcpy_val(void *dst, const void *src, size_t n);
+#define memcpy(d, s, n) xvu_memcpy_val((d), (s), (n))
 #define ut_malloc(n) xvu_sess_malloc(n)
 #define ut_free(p) xvu_sess_free(p)
 #include "xcmc.c"
 #undef ut_malloc
 #undef ut_free
+#undef memcpy
 #undef strlen
 #undef strcpy
 #undef strncmp
